@@ -24,6 +24,7 @@ FINDINGS_FILE = os.path.join(VERIF_DIR, 'known_findings.json')
 _OUT = os.environ.get('VERIF_OUT_DIR')   # sensitivity self-test only
 REPLAY_DIR = os.path.join(_OUT or VERIF_DIR, 'replays')
 REGRESS_DIR = os.path.join(VERIF_DIR, 'regress')
+FINDINGS_DIR = os.path.join(VERIF_DIR, 'findings')
 EVIDENCE_DIR = os.path.join(_OUT or VERIF_DIR, 'evidence')
 
 
@@ -258,10 +259,15 @@ def _run_batch(prop, tier, base_seed, engine, findings, workdir, t_start):
                 continue
         procs.append((w,) + _spawn(s, hashseed_for(base_seed, w), workdir,
                                    'w%d' % w))
-    regress_files = sorted(
-        os.path.join(REGRESS_DIR, name) for name in (
-            os.listdir(REGRESS_DIR) if os.path.isdir(REGRESS_DIR) else [])
-        if name.startswith(prop + '-') and name.endswith('.json'))
+    # replays of repaired defects (must stay silent) and of listed known
+    # findings (re-executed so that each listed finding is reported on every
+    # run, not only when the random search happens to reach it)
+    regress_files = []
+    for rdir in (REGRESS_DIR, FINDINGS_DIR):
+        regress_files.extend(sorted(
+            os.path.join(rdir, name) for name in (
+                os.listdir(rdir) if os.path.isdir(rdir) else [])
+            if name.startswith(prop + '-') and name.endswith('.json')))
     rprocs = []
     by_hs = {}
     for path in regress_files:
